@@ -82,7 +82,11 @@ def run(case):
     if k == "int":
         return {"obs": list(itertools.islice(int_generator(), case["n"]))}
     if k == "pair":
-        return {"obs": [list(p) for p in pairwise(case["l"])]}
+        r = [list(p) for p in pairwise(case["l"])]
+        # the same through one-shot iterators (a generator, iter(list)): pairs must still be consecutive
+        assert [list(p) for p in pairwise(iter(case["l"]))] == r, "pairwise(iter(l)) differs from pairwise(l)"
+        assert [list(p) for p in pairwise(x for x in case["l"])] == r, "pairwise(generator) differs from pairwise(l)"
+        return {"obs": r}
     if k == "newtrack":
         tb = TB(case["regime"])
         tb.enter()
